@@ -25,7 +25,8 @@ FN_SCEN = {"plain": ["Hclose", "HIsync", "Hsync", "HTPsync", "HIextend_file", "H
            "read": ["Hclose", "HP_read 4", "HPseek 2", "HPseekcur"],
            "rdwr": ["HP_write 5", "HP_read 3", "HPseekcur", "HPseek 0", "Hclose", "HIextend_file"],
            "attached": ["Hclose"],
-           "two": ["Hclose", "Hsync"]}
+           "two": ["Hclose", "Hsync"],
+           "twoatt": ["Hclose"]}
 
 RULE = ("20 workload programs (H elements incl. linked blocks, DD-block overflow, cache on/off, update and read of "
         "existing files; Vdata/Vgroup write, update, read; SD write incl. unlimited, chunked, chunked+deflate, RLE, "
@@ -36,7 +37,7 @@ RULE = ("20 workload programs (H elements incl. linked blocks, DD-block overflow
         "transfers (errno ENOSPC), and half of them (thorough: all, gaps 1,2,3,5,8,13,21) with a second independent single "
         "fault at index k+gap. Each run is a child process under ASan/UBSan with a 20 s watchdog; recorded: every "
         "API return value, exit status, final file bytes and a hash of all data read, compared with the fault-free "
-        "run. Function level: 9 prepared file records x up to 8 L1 functions x every fault index x single/sticky. "
+        "run. Function level: 10 prepared file records x up to 8 L1 functions x every fault index x single/sticky. "
         "A case is non-trivial when the injected fault actually hit (nfaults > 0); distinct by (workload, mode, k, "
         "variant)")
 TRUSTED = ["Coq 8.16.1 kernel (vm_compute only on closed finite terms)",
